@@ -21,6 +21,7 @@ ALPHABET = [
     "connect", "select_req", "data_w", "data_nw", "linktest_req", "deselect_req", "close", "select_rsp0_match",
     "select_rsp0_alien", "select_rsp1_match", "deselect_rsp0_alien", "separate_req", "reject_req", "linktest_rsp_alien",
     "local_request", "data_reply_match", "local_deselect", "deselect_rsp0_match", "deselect_rsp1_match", "tick", "disable", "enable",
+    "separate_then_data",
 ]
 
 
@@ -174,6 +175,13 @@ class Harness:
         elif ev == "separate_req":
             send(e37.control(e37.SEPARATE_REQ, sysb))
             ref.link_down()
+        elif ev == "separate_then_data":
+            # one TCP segment: Separate.req, then a data message that is still queued when the session ends - it must not reach the application
+            if not link:
+                return False
+            send(e37.control(e37.SEPARATE_REQ, sysb) + e37.data(1, 1, False, alien))
+            ref.link_down()
+            expect["never_deliver"] = [alien]
         elif ev == "reject_req":
             send(e37.control(e37.REJECT_REQ, alien, 4, rejected_stype=0))
         elif ev in ("data_w", "data_nw"):
@@ -207,7 +215,7 @@ class Harness:
         s.settle()
         frames = ep.pump()
         ref.note_wire(frames)
-        if ev in ("close", "disable", "separate_req"):
+        if ev in ("close", "disable", "separate_req", "separate_then_data"):
             ep.reset_wire()
         self.check(ev, frames, expect, self.delivered[n_deliv:])
         return True
@@ -247,6 +255,9 @@ class Harness:
         for f in frames:
             if f["stype"] in rsp_types and (f["stype"], f["system"]) not in expected_rsp:
                 self.v(f"unexpected-response|{e37.STYPE_NAMES[f['stype']]}", frames=[e37.brief(x) for x in frames])
+        for sysb in expect.get("never_deliver", ()):
+            if any(d[0] == sysb for d in delivered):
+                self.v("data-delivered-after-the-session-ended", delivered=delivered)
         # data outside SELECTED: never delivered, exactly one Reject.req(reason 4) with its system bytes
         for sysb in expect["reject_data"]:
             rej = [f for f in frames if f["stype"] == e37.REJECT_REQ and f["system"] == sysb]
